@@ -13,6 +13,7 @@ type dgen struct {
 	resetW     int
 	firstFault int // stratified call index of the first writer fault (-1 random)
 	geomClass  string
+	nilWrites  bool // some writer faults are (0, nil) answers (C06 only)
 	bigLits    bool // plain writes and trailing literals are sized "any" (oversize allowed: Write chunks them) while sequences keep g.sizes
 }
 
@@ -273,6 +274,13 @@ func genDecoderTrace(r *RNG, g dgen) *Trace {
 	ws, bs := spec.sizes()
 	if g.wfaults {
 		spec.WPlan = genWPlan(r, g.firstFault, 12)
+		if g.nilWrites {
+			for i := range spec.WPlan.Events {
+				if r.Chance(0.3) {
+					spec.WPlan.Events[i].Nil = true
+				}
+			}
+		}
 	}
 	t := &Trace{World: "decoder", D: &spec}
 	gl := g // sizing of plain writes and trailing literals
